@@ -12,15 +12,18 @@
  *   filetype S N | format S STR|- | fprec S N | dprec S N     -> SET rc
  *   cksave S NAME                    -> CKSAVE rc errno nerr nwarn # last message
  *   save S NAME                      -> SAVE rc errno nerr nwarn nbytes HEX # last message
- *   load S NAME HEX|@|-              -> LOAD rc errno nerr nwarn lastcat # last message
+ *   load S NAME HEX|@|-              -> LOAD rc errno nerr nwarn lastcat # last message ## first error message
  *                                       (@ = bytes of the last save, - = empty input)
  *   dump S                           -> DUMP type rows cols freqs fz0 filetype fprec dprec format | F .. | Z .. | D ..
  *   free S                           -> FREE
+ * A load or save that runs longer than VERIF_ALARM seconds (default 5) prints HANG and exits with 95.
  *   live                             -> LIVE n   (library blocks still allocated; needs allocwrap)
  */
 #include <complex.h>
 #include <errno.h>
 #include <math.h>
+#include <signal.h>
+#include <unistd.h>
 #include <stdio.h>
 #include <stdlib.h>
 #include <string.h>
@@ -39,6 +42,7 @@ static long verif_live_blocks(void) { return -1; }
 static vnadata_t *slot[NSLOT];
 static int nerr, nwarn, lastcat;
 static char lastmsg[400];
+static char firstmsg[400];
 static char *lastbuf;
 static size_t lastlen;
 
@@ -55,6 +59,8 @@ static void error_fn(const char *message, void *arg, vnaerr_category_t category)
     for (char *p = lastmsg; *p; ++p)
 	if (*p == '\n' || *p == '\r')
 	    *p = ' ';
+    if (firstmsg[0] == 0 && category != VNAERR_WARNING)
+	snprintf(firstmsg, sizeof(firstmsg), "%s", lastmsg);
 }
 
 static const char *errname(int e)
@@ -74,7 +80,17 @@ static const char *errname(int e)
     }
 }
 
-static void reset(void) { nerr = nwarn = 0; lastcat = -1; lastmsg[0] = 0; errno = 0; }
+static int alarm_seconds = 5;
+static void on_alarm(int sig)
+{
+    static const char msg[] = "HANG\n";
+    (void)sig;
+    fflush(stdout);
+    if (write(1, msg, sizeof(msg) - 1) < 0) { }
+    _exit(95);
+}
+
+static void reset(void) { nerr = nwarn = 0; lastcat = -1; lastmsg[0] = 0; firstmsg[0] = 0; errno = 0; }
 
 static char *tok(void) { return strtok(NULL, " \t\r\n"); }
 static int toki(void) { char *t = tok(); if (!t) { fprintf(stderr, "harness: missing int\n"); exit(3); } return (int)strtol(t, NULL, 0); }
@@ -122,6 +138,8 @@ int main(void)
     size_t cap = 0;
     ssize_t n;
 
+    if (getenv("VERIF_ALARM") != NULL) alarm_seconds = atoi(getenv("VERIF_ALARM"));
+    signal(SIGALRM, on_alarm);
     while ((n = getline(&line, &cap, stdin)) > 0) {
 	char *op = strtok(line, " \t\r\n");
 	if (op == NULL || op[0] == '#') continue;
@@ -206,7 +224,7 @@ int main(void)
 		char *buf = NULL; size_t len = 0;
 		FILE *fp = open_memstream(&buf, &len);
 		reset();
-		TRACK(1); int rc = vnadata_fsave(slot[s], fp, name); int e = errno; TRACK(0);
+		alarm(alarm_seconds); TRACK(1); int rc = vnadata_fsave(slot[s], fp, name); int e = errno; TRACK(0); alarm(0);
 		fclose(fp);
 		free(lastbuf);
 		lastbuf = buf; lastlen = len;
@@ -232,10 +250,10 @@ int main(void)
 		FILE *fp = len ? fmemopen(buf, len, "r") : fopen("/dev/null", "r");
 		if (fp == NULL) { fprintf(stderr, "harness: fmemopen failed\n"); return 3; }
 		reset();
-		TRACK(1); int rc = vnadata_fload(slot[s], fp, name); int e = errno; TRACK(0);
+		alarm(alarm_seconds); TRACK(1); int rc = vnadata_fload(slot[s], fp, name); int e = errno; TRACK(0); alarm(0);
 		fclose(fp);
 		if (own) free(buf);
-		printf("LOAD %d %s %d %d %d # %s\n", rc, errname(rc == -1 ? e : 0), nerr, nwarn, lastcat, lastmsg);
+		printf("LOAD %d %s %d %d %d # %s ## %s\n", rc, errname(rc == -1 ? e : 0), nerr, nwarn, lastcat, lastmsg, firstmsg);
 	    } else if (strcmp(op, "dump") == 0) {
 		dump(slot[s]);
 	    } else {
